@@ -63,30 +63,4 @@ theorem pushed_of_where (side : Nat) (w : Option Expr) (l r : TRow)
       intro x hx
       exact collected_implied e l r (by simpa [whereOf] using hw) x hx.1
 
-/-- **the fragment theorem**: inner join, no LIMIT, ANY WHERE tree — the model plan returns exactly what the
-query returns, for every database -/
-theorem plan2_inner_sound (q : Q2) (db : DB) (hk : q.kind = .inner) (hl : q.limit = none) :
-    execPlan (plan q) db = evalQuery q db := by
-  unfold execPlan evalQuery plan
-  simp only [hk, hl, limitOf, joinK, semiAllowed, Option.isSome_none, ite_self, Bool.not_true, Bool.false_or]
-  rw [filter_and' (fun r => holdsAll (pushedFor 1 q.w) [] r)]
-  rw [innerJoin_restrict]
-  · rw [push_right_inner (eqOn q.c0 q.c1) Prod.mk (whereOf q.w) (fun r => holdsAll (pushedFor 1 q.w) [] r)]
-    · rw [push_left_inner (eqOn q.c0 q.c1) Prod.mk (whereOf q.w) (fun l => holdsAll (pushedFor 0 q.w) l [])]
-      intro l r hw
-      rw [← holdsAll_side0 _ (pushedFor_side 0 q.w) l r []]
-      exact pushed_of_where 0 q.w l r hw
-    · intro l r hw
-      rw [← holdsAll_side1 _ (pushedFor_side 1 q.w) l [] r]
-      exact pushed_of_where 1 q.w l r hw
-  · intro l hl' r hon
-    have := cmpVal_eq_t _ _ hon
-    have hin : sqlIn (r.col q.c1)
-        (distinct ((db.t0.filter fun l => holdsAll (pushedFor 0 q.w) l []).map fun l => l.col q.c0)) = .t := by
-      rw [sqlIn_true_iff]
-      refine ⟨this.2, ?_⟩
-      rw [mem_distinct, this.1]
-      exact List.mem_map_of_mem (f := fun l => l.col q.c0) hl'
-    simp [hin]
-
 end MindsVerif.Sem
